@@ -43,7 +43,7 @@ def run(chk, ctx):
     chk.explanation = ("C18 decided structurally: ORG (vars() -> EvalContext::vars -> FramedMap::flatten of the `vars` field, not alt_vars / outputs), TAB/GUARD (flatten scans innermost-first and keeps the first occurrence), "
                        "WHO (EvalContext::set is called only from the interpreter's let / counter sites; the frame operations only from the loop states), ORD (between the row's evaluation and the return of next() nothing can write the variable map: "
                        "the call closure of the expansion, the generators, handle_io and into_data_row contains no set/push_frame/pop_frame), PAIR (swap_vars is undone on every path, so the real map is the one reported). "
-                       "The frame discipline itself (bindings of ended loops vanish) is C01's.")
+                       "The frame discipline (bindings of ended loops vanish) is C01's obligation 4 and FramedMap tables, both carried here.")
     chk.trusted = ["rustc MIR and callee resolution"]
     v = P.body(DRI + "vars")
     if chk.anchor("DataRowIterator::vars", v):
@@ -88,6 +88,11 @@ def run(chk, ctx):
     nwc = P.body(c01.NWC)
     if nwc is not None:
         c01.frames_obligation(chk, c01.Automaton(P, nwc))
+    # ... which makes "variables of loops that have ended are absent" true only if the map's own frame operations do what the
+    # pairing assumes: push_frame records values.len(), pop_frame truncates to the popped mark, set searches the innermost frame
+    # only, get is innermost-first (C01's FramedMap tables, carried: a push that records no mark for an empty map and a pop that
+    # then truncates nothing each look harmless alone)
+    c01.run(chk.only(("TAB:FramedMap", "WHO:FramedMap")), ctx)
     nx = P.body(NEXT)
     if nx is not None:
         others = [callee_name(t)[0] for bb, t in nx.calls() if callee_name(t)[0] in P.f.bodies and callee_name(t)[0] not in (TD + "get_row", DRI + "handle_io", "data_row_iterator::EvaluatedRow::into_data_row")]
